@@ -97,7 +97,9 @@ def run(ctx):
     H = _H()
     ctx.gate()
     props_ok, failing, log = ctx.props()
-    ctx.build(["Model/ChanPipe.vo"])
+    okx, _, _ = ctx.build(["Model/ChanPipe.vo", "Proof/ChanPipeExamples.vo"])
+    ctx.oblige("non-vacuity examples (Proof/ChanPipeExamples.v: a real two-request run replayed in the model, the F18 "
+               "schedule on the repaired shape) compile", okx)
     runner = ctx.runner("chanpipe", "ExtChanpipe.v")
     if runner is None:
         ctx.oblige("extracted model runner builds", False, "see notes")
@@ -224,7 +226,7 @@ def run(ctx):
         pol = H.RandomPolicy(r, stay=0.9) if i % 2 == 0 else H.PCTPolicy(r, 2, 260)
         w, bad, mis = one("f18-search", f18s, policy=pol, pk="f18-search")
         f18_clean = f18_clean and not bad and mis is None
-    wit = (["i:-"] * 7 + ["i:s10", "i:-", "i:r2.0"] + ["i:-"] * 17 + ["w0:-"] * 14 + ["w0:n5.0"] + ["w0:-"] * 13
+    wit = (["i:-"] * 7 + ["i:s10", "i:-", "i:r2.0"] + ["i:-"] * 17 + ["w0:-"] * 15 + ["w0:n5.0"] + ["w0:-"] * 13
            + ["i:-", "i:s01", "i:-", "i:-", "i:-", "i:-", "i:n7.7"] + ["w0:-", "w0:n7.7"])
     ans = runner.query(["raw 0,1,2,1,1 000:5/100:3 " + " ".join(wit), "raw 0,1,2,1,0 000:5/100:3 " + " ".join(wit)])
     old_last = [f for f in ans[0].split("|") if f != "X"][-1]
